@@ -79,6 +79,8 @@ def modes():
         start_inclusive=r.random() < 0.5, end_inclusive=r.random() < 0.5), True, True)
     M["valid_range-list+dtype"] = ("axds.valid_range_test", lambda x, r, h: dict(
         inp=gen.nanlist(x), valid_span=(-2, 2), dtype=np.float64), True, False)
+    M["valid_range-object+dtype"] = ("axds.valid_range_test", lambda x, r, h: dict(
+        inp=np.array(list(x), dtype=object), valid_span=(-2, 2), dtype=np.float64), True, True)
     M["location"] = ("qartod.location_test", lambda x, r, h: dict(
         lon=data(x, h), lat=data([None if v is None and r.random() < 0.7 else 0.5 * k for k, v in enumerate(x)], h),
         bbox=r.choice([(-180, -90, 180, 90), [-3, -1, 3, 20]]), range_max=r.choice([None, 1000.0, 1e6])), False, True)
